@@ -292,14 +292,14 @@ Proof.
       apply Hpush; auto; rewrite ?Eid; auto.
   - (* WTakeAck *) unfold step_wtakeack.
     assert (Hgo : forall i q, ackq s = i :: q -> (writer s = WTop \/ writer s = WInner) ->
-              gate_inv (set_ackq q (set_writer (WHolding (mkOFrame (mkFrame 0 T_KeepAliveAck i 0 0 IOpaque) None)) s))).
+              gate_inv (set_ackq q (set_writer (WHolding (stamp_o cfg (version s) (mkOFrame (mkFrame 0 T_KeepAliveAck i 0 0 IOpaque) None))) s))).
     { intros i q Ea Hw. unfold gate_inv. st_simpl_goal.
       replace (psrcs (set_ackq q (set_writer _ s))) with (psrcs s ++ [None]).
       - apply GI_push; [exact G|discriminate|cbn; discriminate|cbn; discriminate].
       - unfold psrcs. st_simpl_goal. destruct Hw as [Hw|Hw]; rewrite Hw; cbn; rewrite app_nil_r; reflexivity. }
     destruct (writer s) eqn:Hw; try assumption; destruct (ackq s) eqn:Ea; try assumption; apply Hgo; auto.
   - (* WWriteHdr *) unfold step_wwritehdr. destruct (writer s) eqn:Hw; try assumption. cbn zeta.
-    destruct (f_len (o_frame (stamp_o cfg (version s) o)) =? 0);
+    destruct (f_len (o_frame o) =? 0);
       (apply (gate_same s); auto; unfold psrcs; st_simpl_goal; rewrite Hw, ?held_after_frame, ?map_app; cbn; rewrite ?app_nil_r; reflexivity).
   - (* WWritePay *) unfold step_wwritepay. destruct (writer s) eqn:Hw; try assumption.
     apply (gate_same s); auto. unfold psrcs. st_simpl_goal. rewrite Hw, held_after_frame, map_app. cbn. rewrite app_nil_r. reflexivity.
